@@ -57,6 +57,11 @@ fn do_run<S: Scenario>(s: &S, args: &BTreeMap<String, String>) -> i32 {
             .set("ops", J::A(f.ops.iter().map(|o| o.to_json()).collect()))
             .set("violation", f.violation.to_json().set("at_op", J::U(f.at_op as u128)))
             .set("minimised_from", J::U(f.minimised_from as u128));
+        if !f.from_trace {
+            // the failure needs what earlier runs of this batch left behind in the process: replay = the batch prefix
+            j.put("kind", J::str("batch"));
+            j.put("batch", J::obj().set("start", J::U(cfg.start as u128)).set("runs", J::U((f.run_index + 1 - cfg.start) as u128)).set("max_ops", J::U(cfg.max_ops as u128)));
+        }
         if !replay_dir.is_empty() {
             let _ = std::fs::create_dir_all(replay_dir);
             let text = j.to_string();
@@ -237,6 +242,7 @@ fn main() {
             scenarios!(name.as_str(), do_trace, &args)
         }
         "replay" => {
+            kit::sim::IN_CHILD.store(true, std::sync::atomic::Ordering::Relaxed);
             let text = std::fs::read_to_string(arg(&args, "file", "")).expect("read replay file");
             let j = J::parse(&text).expect("parse replay file");
             let name = j.s("scenario").unwrap_or("").to_string();
